@@ -251,14 +251,16 @@ PROPS["C09"] = {
 }
 
 PROPS["C04"] = {
-    "parts": [{"name": "bind", "pkg": "c04", "chk": "chk_c04"}, {"name": "e2e", "pkg": "c04", "chk": "chk_c04", "args": ["e2e"]}],
-    "reasons": {"e2e": {"1": "(unused in this part)", "2": "an HTTP status other than 400 for a value that does not parse (500 only for an unresolvable body path)", "3": "(unused in this part)", "4": "the handler panicked"},
+    "parts": [{"name": "bind", "pkg": "c04", "chk": "chk_c04"}, {"name": "e2e", "pkg": "c04", "chk": "chk_c04", "args": ["e2e"]},
+              {"name": "iso", "pkg": "c04", "chk": "chk_c04_iso", "args": ["iso"]}],
+    "reasons": {"iso": {"6": "the message a request produced (or the text a response was rendered to) depends on which OTHER targets the same bridge served before: a request with a google.protobuf.Any value gave a different result through the shared transcoder than through a transcoder of its own"},
+                "e2e": {"1": "(unused in this part)", "2": "an HTTP status other than 400 for a value that does not parse (500 only for an unresolvable body path)", "3": "(unused in this part)", "4": "the handler panicked"},
                 "bind": {"1": "the request message depends on which protobuf types are registered in the bridge process (clean vs poisoned global registry)",
                          "2": "a value that does not parse produced something other than InvalidArgument (or Internal for a body path that does not resolve)",
                          "3": "a query parameter addressing a field already bound by the body or a path variable changed the request message",
                          "4": "the transcoder panicked",
                          "5": "a query parameter addressing an unbound string field whose name merely starts with the name of a bound field did not arrive verbatim in the request message"}},
-    "rule": "schemas built at run time (never registered globally; well-known types as COPIES with the same full names, as reflection delivers them): one rich schema (every scalar kind, enum, lists, maps with 4 key kinds, nested messages 3 deep, two oneofs incl. a message member, proto3 optional, 8 wrapper types, FieldMask, json_name variants) and random small schemas; per case a body binding ('', '*', a scalar / list / map / message / nested field, unresolvable paths), 0-4 path variables (nested, inside the body field, sharing names at different depths), 0-5 query keys (proto and JSON names, map brackets, keys under bound prefixes, unbound siblings whose names start with a bound name, unknown and malformed keys), valid and invalid text forms from per-kind boundary pools, 1-3 bodies as repeated Transcode calls or through the stream decoder; each request runs with a clean global registry, again after conflicting types with the same full names were registered, and once more without the query keys that address bound fields",
+    "rule": "schemas built at run time (never registered globally; well-known types as COPIES with the same full names, as reflection delivers them): one rich schema (every scalar kind, enum, lists, maps with 4 key kinds, nested messages 3 deep, two oneofs incl. a message member, proto3 optional, 8 wrapper types, FieldMask, json_name variants) and random small schemas; per case a body binding ('', '*', a scalar / list / map / message / nested field, unresolvable paths), 0-4 path variables (nested, inside the body field, sharing names at different depths), 0-5 query keys (proto and JSON names, map brackets, keys under bound prefixes, unbound siblings whose names start with a bound name, unknown and malformed keys), valid and invalid text forms from per-kind boundary pools, 1-3 bodies as repeated Transcode calls or through the stream decoder; each request runs with a clean global registry, again after conflicting types with the same full names were registered, and once more without the query keys that address bound fields; iso: four targets defining iso.Payload differently (or not at all), sequences of 2-5 requests with google.protobuf.Any values over random targets through ONE transcoder (the package default or a configured one), each compared with the same request through a transcoder of its own, request message and response text",
     "level_text": "Coq theorems over ALL schemas, bindings and requests of the model: a path variable's parsed value is what ends up in the message whatever body and query say (precedence), the filter is exactly bound-prefix, bound query keys are ignored, populate/query frame lemmas (only the addressed field path changes), body '*' ignores the query, failures are InvalidArgument (Internal only for an unresolvable body path), integer and enum text forms are exact (no wrap-around; pre-repair enum parser refuted). Tied to the code by the differential harness (model = code on every case, in both registry states).",
     "level_note": "Trusted: Coq kernel, extraction, modelrun, Go harness; protojson for whole-message bodies (the model covers the canonical subset the harness generates), encoding/json, strconv, net/url query decoding, dynamicpb. Timestamp / Duration / Value / Struct text forms are not modelled (time.Parse, protojson).",
     "design_ref": "DESIGN.md §3 C04",
